@@ -42,6 +42,9 @@ HARNESSES['k_mbi_magic'] = dict(MB2, file='lib.rs', kind='full', functions=['MAG
 # input family) for clauses neither verifier can reach.  Never counted as proved.
 # ---------------------------------------------------------------------------
 NATIVE = {
+    'n_inforeq_alloc_layout': dict(crate='multiboot2-header', file='information_request.rs', props=['C16'],
+        bound='InformationRequestHeaderTag::new with 0..=5 requests under a layout-recording global allocator (6 cases)',
+        functions=['new_boxed (allocation layout passed to alloc vs. Box drop), header type with alignment 4']),
     'n_find_header_window_limit': dict(crate='multiboot2-header', file='header.rs', props=['C13'],
         bound='buffer lengths {8190, 8192, 8196, 8200, 8216, 8448} x magic positions 8150..=8210 x header lengths {16, 24, 200, 400} (1464 cases), zero-filled otherwise',
         functions=['Multiboot2Header::find_header (8192-byte search window clause)']),
